@@ -381,7 +381,15 @@ class Network(BaseModel):  # pylint: disable=too-many-public-methods
 
     def compile_links(self):
         """Infer the link type from the network."""
+        link_names = {}
         for edge in self.graph.get_link_edges(with_obj=False, with_name=True):
+            # The signals of a link are named after its two nodes
+            link_name = f"{edge[0]}_to_{edge[1]}"
+            if link_name in link_names:
+                raise ValueError(
+                    f"The links {link_names[link_name]} and {edge} are both named `{link_name}`"
+                )
+            link_names[link_name] = edge
             # Check if link is bidirectional
             is_bidirectional = self.graph.has_edge(edge[1], edge[0])
             link = {
